@@ -77,7 +77,7 @@ func (c *FCtx) numberSites(fi *FuncInfo) {
 		case *ast.ExprStmt, *ast.AssignStmt, *ast.IncDecStmt, *ast.BranchStmt, *ast.SendStmt, *ast.GoStmt, *ast.DeferStmt, *ast.ReturnStmt:
 			var sb strings.Builder
 			if err := printer.Fprint(&sb, c.W.Fset, x); err == nil {
-				text := strings.Join(strings.Fields(sb.String()), " ")
+				text := c.baselineText(strings.Join(strings.Fields(sb.String()), " "))
 				stmtCount[text]++
 				c.stmtOrd[x.(ast.Stmt).Pos()] = fmt.Sprintf("stmt %s#%d", text, stmtCount[text])
 			}
@@ -193,6 +193,7 @@ func (w *World) verifyFuncMode(fi *FuncInfo, ct *Contract, defaultSafety bool, p
 			c.attachDefs()
 		}
 	}()
+	c.computeRenames(fi)
 	c.numberSites(fi)
 	if len(c.badAnchors) > 0 {
 		panic(outOfReach(fmt.Sprintf("contract anchor not found in the function: at %s", strings.Join(c.badAnchors, "; at "))))
@@ -380,6 +381,7 @@ func (c *FCtx) attachDefs() {
 		o.Axioms = ax
 		o.Inputs = c.Inputs
 		o.BytesAxioms = c.wantsAxiom("bytes")
+		o.RowFrames = c.RowFrames
 	}
 }
 
